@@ -81,13 +81,13 @@ func (b *builder) addWriter(name string, write func(w io.Writer) error, probe fu
 	snapObjs := func() []digest {
 		d := make([]digest, len(objs))
 		for i, a := range objs {
-			d[i] = snapshot(a.obj)
+			d[i] = snapshotArg(a.obj)
 		}
 		return d
 	}
 	check := func(before []digest, what string) {
 		for i, a := range objs {
-			if snapshot(a.obj) != before[i] {
+			if snapshotArg(a.obj) != before[i] {
 				panic(fmt.Sprintf("PURITY: %s: the serialised object %q is modified after %s", name, a.name, what))
 			}
 		}
